@@ -935,6 +935,12 @@ impl World {
         let rng = self.nodes[i].rng.clone();
         self.call_id += 1;
         rng.begin_call(self.call_id, mix(i as u64, 0x4B47));
+        // RNG fault (as for ephemerals): the first draw is all zero - not a valid P-256 scalar;
+        // the generated key pairs must still be usable
+        if proto.dh == crate::refnoise::DhK::P256 && mix(nc.rng_seed, self.call_id) % 4 == 0 {
+            rng.zero_next.store(true, std::sync::atomic::Ordering::Relaxed);
+            self.stats.fault("rng-yields-invalid-scalar");
+        }
         let r = guarded(|| -> Result<(snow::Keypair, snow::Keypair), Error> {
             let params: snow::params::NoiseParams = nc.name.parse()?;
             let resolver = SimResolver::new(nc.backend, rng.clone(), None, None);
@@ -943,6 +949,7 @@ impl World {
             let k2 = b.generate_keypair()?;
             Ok((k1, k2))
         });
+        rng.zero_next.store(false, std::sync::atomic::Ordering::Relaxed);
         let site = format!("keygen/{}", proto.dh.name());
         match r {
             Err(p) => {
